@@ -345,4 +345,80 @@ Proof.
   - split; [exact L1|apply L2].
 Qed.
 
+
+(** * 4. Inversion of the helpers *)
+Definition soa_key (tok : bytes) : rkey := (hash tok, hash tok, 6%N, 0%N).
+Definition serial_data (c : nctx) (f0 f1 f3 f4 f5 f6 : bytes) : bytes :=
+  f0 ++ SPACE :: f1 ++ SPACE :: itoa (now c) ++ SPACE :: f3 ++ SPACE :: f4 ++ SPACE :: f5 ++ SPACE :: f6.
+(** [new] is [old] with field 3 (the serial) of its seven space-separated
+    fields replaced by the block time; name, type and id are kept. *)
+Definition soa_refreshed (c : nctx) (old new : rstate) : Prop :=
+  exists f0 f1 f2 f3 f4 f5 f6, split_nonempty (r_data old) = [f0; f1; f2; f3; f4; f5; f6] /\
+    new = mkR (r_name old) (r_type old) (serial_data c f0 f1 f3 f4 f5 f6) (r_id old).
+
+Lemma update_soa_serial_halt c s tok s' :
+  update_soa_serial hash str_ok c s tok = Halt s' ->
+  exists old new, records s !! soa_key tok = Some old /\ str_ok (r_data old) = true /\
+    soa_refreshed c old new /\ s' = set_records s (<[soa_key tok := new]> (records s)).
+Proof.
+  unfold update_soa_serial. cbv zeta. fold (soa_key tok). Show. destruct (records s !! soa_key tok) as [old|] eqn:Eo; cbv beta iota; [|Show; discriminate].
+  destruct (str_ok (r_data old)) eqn:Es; cbn [negb]; cbv beta iota; [|discriminate].
+  destruct (split_nonempty (r_data old)) as [|f0 [|f1 [|f2 [|f3 [|f4 [|f5 [|f6 [|f7 fs]]]]]]]] eqn:Ef; cbv beta iota; try discriminate.
+  intros H. injection H as <-. eexists old, _. split; [reflexivity|]. split; [reflexivity|]. split; [|reflexivity].
+  exists f0, f1, f2, f3, f4, f5, f6. split; reflexivity.
+Qed.
+
+Lemma update_soa_serial_fault c s tok :
+  records s !! soa_key tok = None -> update_soa_serial hash str_ok c s tok = Fault.
+Proof. unfold update_soa_serial. cbv zeta. fold (soa_key tok). intros ->. reflexivity. Qed.
+
+Lemma put_soa_halt c s name email a b d e s' :
+  put_soa hash valid_name c s name email a b d e = Halt s' ->
+  exists tok, tok_of c s name = Halt tok /\
+    s' = set_records s (<[(hash tok, hash name, 6%N, 0%N) := mkR name T_SOA (soa_data c name email a b d e) 0]> (records s)).
+Proof. unfold put_soa. intros H. inv1 H. injection H as <-. exists x. split; reflexivity. Qed.
+
+Lemma save_domain_halt c s name email a b d e owner s' :
+  save_domain hash valid_name c s name email a b d e owner = Halt s' ->
+  exists tok data, records s' = <[(hash tok, hash name, 6%N, 0%N) := mkR name T_SOA data 0]> (records s).
+Proof.
+  unfold save_domain. intros H. inv_binds H. apply put_soa_halt in H as [tok [_ ->]]. exists tok. eexists. reflexivity.
+Qed.
+
+Lemma check_record_halt c s name typ data tok :
+  check_record hash valid_name valid_data c s name typ data = Halt tok ->
+  tok_of c s name = Halt tok /\ (typ = 1 \/ typ = 5 \/ typ = 16 \/ typ = 28) /\ valid_data typ data = true /\
+  length (split_dot tok) <> 1%nat /\
+  exists ns, get_frag_ns hash c s tok (split_dot tok) = Halt ns /\ may_admin c ns = true.
+Proof.
+  unfold check_record. intros H. inv_binds H. injection H as <-.
+  split; [reflexivity|]. split; [unfold T_A, T_CNAME, T_TXT, T_AAAA in *; lia|]. split; [assumption|].
+  split; [lia|]. exists x1. split; [assumption|]. eapply check_admin_halt; eassumption.
+Qed.
+
+Lemma to_byte_small z b : to_byte z = Halt b -> (b < 128)%N -> z = Z.of_N b.
+Proof.
+  intros H Hb. destruct (Z_lt_le_dec z 0) as [Hz|Hz]; [|apply to_byte_nonneg; assumption].
+  exfalso. apply to_byte_halt in H as [Hr ->].
+  assert (E : z + 256 = z mod 256) by (apply (Z.mod_unique z 256 (-1)); lia). lia.
+Qed.
+
+(** every change of the record store is of one of these shapes *)
+Lemma nexec_records_cases c s o s' v ns :
+  nexec c s o = Halt (s', v, ns) ->
+  records s' = records s \/
+  (exists tok name data, records s' = <[(hash tok, hash name, 6%N, 0%N) := mkR name T_SOA data 0]> (records s)) \/
+  (exists name typ data, o = AddRecord name typ data) \/
+  (exists name typ id data, o = SetRecord name typ id data) \/
+  (exists name typ, o = DeleteRecords name typ).
+Proof.
+  intros H. destruct o; unfold NNS.nexec in H.
+  - (* Register *) right; left. cbv zeta in H. inv_binds H.
+    destruct (get_ns hash s name) as [ns0|].
+    + destruct (now c <? ns_exp ns0).
+      * admit.
+      * inv_binds H. injection H as <- _ _. apply save_domain_halt in E8 as [tok [data E8]]. exists tok, name, data. exact E8.
+    + inv_binds H. injection H as <- _ _. apply save_domain_halt in E9 as [tok [data E9]]. exists tok, name, data. exact E9.
+Admitted.
+
 End Records.
